@@ -425,6 +425,11 @@ def rule_r7(facts, col, rule_id="C16.R7"):
                                 pv = peel(val0, through_try=False)
                                 if pv.k == "agg" and pv.args and comp.isdigit() and int(comp) < len(pv.args):
                                     val0 = pv.args[int(comp)]
+                                elif pv.k == "agg" and pv.args and pv.adt in facts.adts and \
+                                        comp in [f_["name"] for f_ in facts.adts[pv.adt]["variants"][0]["fields"]]:
+                                    # a small struct instead of a tuple: `DataRange { start, len }`
+                                    names_ = [f_["name"] for f_ in facts.adts[pv.adt]["variants"][0]["fields"]]
+                                    val0 = pv.args[names_.index(comp)] if names_.index(comp) < len(pv.args) else E("unknown")
                                 else:
                                     val0 = E("field", a=pv, name=comp, idx=int(comp) if comp.isdigit() else None)
                         else:
@@ -585,6 +590,15 @@ def rule_r9(facts, col, rule_id="C16.R9", scope=None):
             else:
                 col.ok(rule_id, key, body.where(bb), "no dependence on a possibly-empty output window")
 
+
+
+# a body that raises an alarm as compiled is judged again on its work view (effects.view_fallback)
+rule_r2 = effects.view_fallback(rule_r2)
+rule_r5 = effects.view_fallback(rule_r5)
+rule_r6 = effects.view_fallback(rule_r6)
+rule_r7 = effects.view_fallback(rule_r7)
+rule_r8 = effects.view_fallback(rule_r8)
+rule_r9 = effects.view_fallback(rule_r9)
 
 def run(ctx):
     facts = ctx.facts("default")
